@@ -6,6 +6,8 @@ import (
 	"crypto/sha256"
 	"encoding/binary"
 	mrand "math/rand"
+	"runtime"
+	"sync/atomic"
 )
 
 // Layout of an Intel TDX v4 quote, written from the specification.
@@ -107,6 +109,40 @@ func RawSig(k *ecdsa.PrivateKey, msg []byte) []byte {
 	r.FillBytes(out[:32])
 	s.FillBytes(out[32:])
 	return out
+}
+
+// GrindSig signs msg again and again (on all cores) until the big-endian r has at least zr and s at least zs leading zero
+// bytes: small scalars are rare (256^-n) but perfectly valid, and they exercise the integer encoders.
+func GrindSig(k *ecdsa.PrivateKey, msg []byte, zr, zs int) []byte {
+	ok := func(sig []byte) bool {
+		for i := 0; i < zr; i++ {
+			if sig[i] != 0 {
+				return false
+			}
+		}
+		for i := 0; i < zs; i++ {
+			if sig[32+i] != 0 {
+				return false
+			}
+		}
+		return true
+	}
+	found := make(chan []byte, 64)
+	var stop int32
+	n := runtime.NumCPU()
+	for w := 0; w < n; w++ {
+		go func() {
+			for atomic.LoadInt32(&stop) == 0 {
+				if sig := RawSig(k, msg); ok(sig) {
+					found <- sig
+					return
+				}
+			}
+		}()
+	}
+	sig := <-found
+	atomic.StoreInt32(&stop, 1)
+	return sig
 }
 
 // RawPub returns X‖Y, 32 bytes each.
